@@ -317,7 +317,8 @@ let ghost kk0 = self.key_keeper_shared_state;
 let ghost orig = fwd_spec_of(request, if tcp_connection_context.claims is Some { tcp_connection_context.claims->0.runAsElevated } else { false });
 """,
                           e9=status_e9() + [
-                              ("tcp_connection_context.clone()", None, "c: &TcpConnectionContext", "&tcp_connection_context", "TcpConnectionContext", "    ensures r == *c,",
+                              ("tcp_connection_context.clone()", None, "c: &TcpConnectionContext", "&tcp_connection_context", "TcpConnectionContext",
+                               "    ensures r.id == c.id, r.client_addr == c.client_addr, r.claims == c.claims, r.destination_ip == c.destination_ip, r.destination_port == c.destination_port,  // derived Clone: every field cloned (the logger's clone starts with an empty queue)",
                                dict(name="vx_e9_tcp_ctx_clone", local=True, body="c.clone()")),
                               ("c.clone()", None, CLAIMS_CLONE[0], "&c", CLAIMS_CLONE[1], CLAIMS_CLONE[2], dict(name="vx_e9_claims_clone", body="c.clone()")),
                               ("claims.clone()", None, CLAIMS_CLONE[0], "&claims", CLAIMS_CLONE[1], CLAIMS_CLONE[2], dict(name="vx_e9_claims_clone", body="c.clone()")),
